@@ -5240,6 +5240,10 @@ class TLSConnection(TLSRecordLayer):
         if hashAndAlgsExt is None or hashAndAlgsExt.sigalgs is None:
             # RFC 5246 states that if there are no hashes advertised,
             # sha1 should be picked
+            if certList and certList.x509List and \
+                    certList.x509List[0].certAlg in ("Ed25519", "Ed448"):
+                # there is no sha1 default for EdDSA (RFC 8422, 5.1.3)
+                raise TLSHandshakeFailure("No common signature algorithms")
             return "sha1", certList, private_key
 
         if check_alt:
